@@ -683,6 +683,8 @@ class Interp:
             return v.pyvc_as_mapping(self)
         if isinstance(v, StarPack):
             raise Unsupported("** of an opaque argument pack inside a dict display")
+        if v is None or isinstance(v, (bool, int, float, str, list, tuple, ClassValue, FuncValue)):
+            raise PyRaise(ExcValue("TypeError", ("argument after ** must be a mapping",), ("Exception",)))
         raise Unsupported(f"** of {type(v).__name__}")
 
     def e_JoinedStr(self, node, env):
@@ -1429,6 +1431,8 @@ class Interp:
             return self.iterate(r)
         if isinstance(v, StarPack):
             raise Unsupported("iteration over an opaque argument pack")
+        if v is None or isinstance(v, (bool, int, float, ClassValue, FuncValue)):
+            raise PyRaise(ExcValue("TypeError", (f"object is not iterable",), ("Exception",)))
         raise Unsupported(f"iteration over {type(v).__name__}")
 
     # ------------------------------------------------------------------------------
